@@ -175,7 +175,8 @@ class SchemaGen:
         self.mutation = None
         if with_mutation if with_mutation is not None else r.random() < 0.3:
             mf = [dict(self.sigs[f]) for f in r.sample(OBJ_FIELD_NAMES, 2) + r.sample(LEAF_FIELD_NAMES, 3) + r.sample(self.echo, 2)]
-            self.mutation = {"kind": "object", "name": "Mutation", "fields": mf, "interfaces": []}
+            # the mutation root type is not always called "Mutation" (`schema { mutation: Writes }`)
+            self.mutation = {"kind": "object", "name": r.choice(["Mutation", "Mutation", "Writes"]), "fields": mf, "interfaces": []}
             self.types.append(self.mutation)
         self.subscription = None
         if with_subscription:
@@ -184,7 +185,7 @@ class SchemaGen:
             self.types.append(self.subscription)
 
     def model(self):
-        return {"types": self.types, "query": "Query", "mutation": "Mutation" if self.mutation else None,
+        return {"types": self.types, "query": "Query", "mutation": self.mutation["name"] if self.mutation else None,
                 "subscription": "Subscription" if self.subscription else None}
 
     def wrap_out(self, t, lists=False):
@@ -619,7 +620,7 @@ class DocGen:
 
     def operation(self, kind, name):
         sg = self.sg
-        root = {"query": "Query", "mutation": "Mutation", "subscription": "Subscription"}[kind]
+        root = {"query": "Query", "mutation": self.sg.mutation["name"] if self.sg.mutation else "Mutation", "subscription": "Subscription"}[kind]
         vars_ = {}
         body = self.selection_set(root, 0, vars_)
         return kind, name, vars_, body
@@ -631,7 +632,7 @@ class DocGen:
         for i in range(n_ops):
             kind = r.choice(self.op_kinds)
             name = f"Op{i}" if (n_ops > 1 or r.random() < 0.5) else None
-            root = {"query": "Query", "mutation": "Mutation", "subscription": "Subscription"}[kind]
+            root = {"query": "Query", "mutation": self.sg.mutation["name"] if self.sg.mutation else "Mutation", "subscription": "Subscription"}[kind]
             body = self.selection_set(root, 0, shared_vars)
             ops.append((kind, name, body))
         # every operation declares every variable (fragments are shared, so uses are shared)
